@@ -155,7 +155,7 @@ pub fn run(ctx: &Ctx) -> Report {
         run_prop(&mut st, ctx.seed, "C19", shard as u64, cases / 16, &any_tree(12, 48), judge_tree, case_json);
         run_prop(&mut st, ctx.seed, "C19-units", shard as u64, cases / 64, &any::<u64>(), |c| judge_units(*c), |c| json!({"kind": "units", "count": c}));
         // deep chains: the only action at the bottom of a 12-deep spine
-        let deep = (gen::supported_action(), proptest::collection::vec(0u8..6, 8..12), gen::supported_test()).prop_map(|(a, spine, t)| {
+        let deep = (gen::supported_action(), prop_oneof![4 => proptest::collection::vec(0u8..6, 8..12), 1 => proptest::collection::vec(0u8..6, 40..200)], gen::supported_test()).prop_map(|(a, spine, t)| {
             let mut e = E::A(a);
             for s in spine {
                 e = match s {
@@ -175,7 +175,7 @@ pub fn run(ctx: &Ctx) -> Report {
     total.merge(rnd);
     Report {
         stats: total,
-        rule: "random trees built directly from the public constructors (depth <= 12, up to 48 nodes) including explicit precedence nodes, nested ',' lists, option and positional nodes, every action incl. the deprecated default print, empty and non-empty format lists; 8-12 deep spines with a single action at the bottom; sizes/times with counts around 2^64/unit. Oracle: independent explicit-stack flattening to the leaf list: action() iff some leaf is an action; complex_frames() iff some leaf is -print0/-fprint/-fprint0/-fprintf/-fls or a -printf whose format is non-empty and does not end in the newline escape; mult()/secs() equal 1/2/512/2^10/2^20/2^30/2^40 and 1/60/3600/86400; byte_size() == count*unit whenever that fits u64 (computed in u128; not called otherwise). Non-trivial: an action leaf at depth >= 4 or under Not/Precedence/right of a List. Distinct: by tree / count.".into(),
+        rule: "random trees built directly from the public constructors (depth <= 12, up to 48 nodes) including explicit precedence nodes, nested ',' lists, option and positional nodes, every action incl. the deprecated default print, empty and non-empty format lists; 8-12 deep (and some 40-200 deep) spines with a single action at the bottom; sizes/times with counts around 2^64/unit. Oracle: independent explicit-stack flattening to the leaf list: action() iff some leaf is an action; complex_frames() iff some leaf is -print0/-fprint/-fprint0/-fprintf/-fls or a -printf whose format is non-empty and does not end in the newline escape; mult()/secs() equal 1/2/512/2^10/2^20/2^30/2^40 and 1/60/3600/86400; byte_size() == count*unit whenever that fits u64 (computed in u128; not called otherwise). Non-trivial: an action leaf at depth >= 4 or under Not/Precedence/right of a List. Distinct: by tree / count.".into(),
         assumptions: vec!["PrintFormatted([]) is not framed: 'whose last element is not a newline' is false without a last element".into()],
         exhaustive: false,
     }
